@@ -190,6 +190,8 @@ func init() {
 	// record expiry inside the badger library follows the same clock as the driver's freshness
 	// window (virtual when a check turns the virtual clock on, the wall clock otherwise)
 	badgerdb.VerifNow = vsched.Now
+	// ... and the moment between a transaction's closure and its commit is a scheduling point
+	badgerdb.VerifBeforeCommit = func() { vsched.Yield("badger:before-commit") }
 }
 
 var badgerDBType = reflect.TypeOf((*badgerdb.DB)(nil))
